@@ -34,3 +34,59 @@ pub mod vec {
     pub type SemifiniteFunction<T> = crate::semifinite::SemifiniteFunction<VecKind, T>;
     pub type IndexedCoproduct<F> = crate::indexed_coproduct::IndexedCoproduct<VecKind, F>;
 }
+
+/// Verification hooks: public wrappers around crate-private graph routines, so that an external
+/// harness can observe them directly. Compiled only with the `verif-hooks` feature.
+#[cfg(feature = "verif-hooks")]
+pub mod verif_hooks {
+    use crate::array::{ArrayKind, NaturalArray};
+    use crate::finite_function::FiniteFunction;
+    use crate::indexed_coproduct::IndexedCoproduct;
+    use crate::strict::graph;
+    use crate::strict::hypergraph::Hypergraph;
+
+    pub fn converse<K: ArrayKind>(
+        r: &IndexedCoproduct<K, FiniteFunction<K>>,
+    ) -> IndexedCoproduct<K, FiniteFunction<K>>
+    where
+        K::Type<K::I>: NaturalArray<K>,
+    {
+        graph::converse(r)
+    }
+
+    pub fn operation_adjacency<K: ArrayKind, O, A>(
+        h: &Hypergraph<K, O, A>,
+    ) -> IndexedCoproduct<K, FiniteFunction<K>>
+    where
+        K::Type<K::I>: NaturalArray<K>,
+    {
+        graph::operation_adjacency(h)
+    }
+
+    pub fn node_adjacency<K: ArrayKind, O, A>(
+        h: &Hypergraph<K, O, A>,
+    ) -> IndexedCoproduct<K, FiniteFunction<K>>
+    where
+        K::Type<K::I>: NaturalArray<K>,
+    {
+        graph::node_adjacency(h)
+    }
+
+    pub fn indegree<K: ArrayKind>(
+        adjacency: &IndexedCoproduct<K, FiniteFunction<K>>,
+    ) -> FiniteFunction<K>
+    where
+        K::Type<K::I>: NaturalArray<K>,
+    {
+        graph::indegree(adjacency)
+    }
+
+    pub fn kahn<K: ArrayKind>(
+        adjacency: &IndexedCoproduct<K, FiniteFunction<K>>,
+    ) -> (K::Index, K::Type<K::I>)
+    where
+        K::Type<K::I>: NaturalArray<K>,
+    {
+        graph::kahn(adjacency)
+    }
+}
